@@ -11,7 +11,7 @@ THEOREMS = ['GV.C01.' + t for t in (
     'pointInRing_eq_spec', 'pointInRing_boundary_false', 'pointInRing_inclB', 'insideEO_perm', 'insideEO_flip',
     'pointInRing_rotate', 'pointInRing_reverse', 'ringContains_eq_spec', 'ringContains_rotate', 'ringContains_reverse', 'bbox_prefilter_sound',
     'polyContains_iff', 'poly_hole_boundary_true', 'poly_outer_boundary_false', 'boxContains_iff',
-    'box_edge_contained', 'polyContains_mk_invariant', 'rect_pip_iff')]
+    'box_edge_contained', 'polyContains_mk_invariant', 'rect_pip_iff', 'parity_ray_independent')]
 
 
 def _coord(x, y):
@@ -218,6 +218,20 @@ def check(run):
             for q in use:
                 lines.append(f'pip.in {rat(q[0])} {rat(q[1])} {txt}')
     run.run_cases('polygons-boxes-with-holes', lines, impl, spec, tag=classify)
+
+    # 3b. boxes: all relative positions per axis (below / on min / inside / on max / above), with and without a hole
+    lines = []
+    for _ in range(run.scale(40, 600)):
+        x0, y0 = F(rng.randint(-40, 40), 8), F(rng.randint(-40, 40), 8)
+        w, h = F(rng.randint(1, 32), 8), F(rng.randint(1, 32), 8)
+        txt = f'box {rat(x0)} {rat(y0 + h)} {rat(x0 + w)} {rat(y0)}'
+        if rng.random() < 0.4:
+            hole = [(x0 + w / 4, y0 + h / 4), (x0 + w / 2, y0 + h / 4), (x0 + w / 2, y0 + h / 2), (x0 + w / 4, y0 + h / 2)]
+            txt += ' h ' + flat(rng.choice(variants(hole, rng, True)))
+        for qx in (x0 - F(1, 8), x0, x0 + w / 4, x0 + w / 2, x0 + w * F(3, 8), x0 + w, x0 + w + F(1, 8)):
+            for qy in (y0 - F(1, 8), y0, y0 + h / 4, y0 + h / 2, y0 + h * F(3, 8), y0 + h, y0 + h + F(1, 8)):
+                lines.append(f'pip.in {rat(qx)} {rat(qy)} {txt}')
+    run.run_cases('boxes-all-relative-positions', lines, impl, spec, tag=classify)
 
     # 4. random: star-shaped and orthogonal rings up to 12 vertices on a 1/8 grid, queries snapped to vertex
     #    latitudes / longitudes with probability 1/2
